@@ -169,7 +169,7 @@ func C09(c *core.Ctx) {
 	}) {
 		return
 	}
-	if !collect("MC_Canonical", "SPECIFICATION Spec\nCONSTANTS Wide = FALSE\nINVARIANTS Laws\nCHECK_DEADLOCK FALSE\n", "cs", func(m map[string]interface{}) {
+	if !collect("MC_Canonical", "SPECIFICATION Spec\nCONSTANTS Wide = FALSE\n BigLists = FALSE\nINVARIANTS Laws\nCHECK_DEADLOCK FALSE\n", "cs", func(m map[string]interface{}) {
 		if asBool(m["valid"]) && asStr(m["n"]) != "include short" {
 			addDoc("canonical:"+asStr(m["n"]), docWith(strList(m["path"]), plainOf(m["long"])))
 		}
